@@ -17,7 +17,10 @@ RULE = ("kinds: enum (all indices 0..C(n,k)-1 through the real get_combination_a
         "indices, n<k, k<=0 as a malformed stream); succ (index i and i+1: the second tuple must be the immediate "
         "successor of the first); rank (a descending tuple c: Coq's rank/desc_below vs math.comb, and "
         "unrank(rank c) = c on the implementation); use (the real dbal_fast_gauss_scoring_vectorized with a "
-        "recording or adversarial stub rng: triples distinct, in range, complete when max_combos >= C(n,3)). "
+        "recording or adversarial stub rng: triples distinct, in range, complete when max_combos >= C(n,3), and the score "
+        "is the estimator over exactly the produced triples); scorer_history (ONE GaussianDBALScorer object scoring 2-4 "
+        "problems with different numbers of posterior samples, budget covering all triples: each score must be the "
+        "estimator over all triples of its own call). "
         "Non-trivial: C(n,k) >= 2 and index in range (enum: C(n,k) >= 2; use: n_thetas >= 3).")
 THEOREMS = {
     "C15_model_is_source_loops": "round-1 link, kept: the model's three loops equal, iteration by iteration, the loop bodies / conditions py2coq re-reads from generate_combination_at_sorted_index (Generated/SrcArithC15.v); subsumed by the whole-function link below",
@@ -201,6 +204,10 @@ def gen(rng, tier):
         else:
             c = sorted(rng.sample(range(n + 3), k), reverse=True)  # maybe out of range
         yield dict(kind="rank", n=n, c=c)
+    # the use site through the scorer class: one object, several calls
+    for _ in range(30 if quick else 200):
+        Ts = [rng.randint(3, 9) for _ in range(rng.randint(2, 4))]
+        yield dict(kind="scorer_history", Ts=Ts, budget=rng.choice([math.comb(max(Ts), 3), 5000]), max_chunk=rng.randint(1, 3), seed=rng.randrange(2 ** 31))
     # the use site
     for _ in range(40 if quick else 300):
         n = rng.choice([0, 1, 2, 3, 3, 4, 5, 6, 7, 8, 10, 12, 15, 20, 25, 30, rng.randint(3, 45)])
@@ -208,6 +215,39 @@ def gen(rng, tier):
         mc = rng.choice([1, 2, 5000, max(1, C - 1), max(1, C), C + 1, rng.randint(1, max(2, 2 * C))])
         yield dict(kind="use", n=n, max_combos=mc, seed=rng.randrange(2 ** 31),
                    stub=rng.choice(["numpy", "numpy", "reversed", "sorted", "tail"]))
+
+
+def _run_scorer_history(desc):
+    """ONE GaussianDBALScorer object scores a sequence of problems with different numbers of posterior samples, the budget
+    covering all triples each time: every score must be the estimator over ALL C(T,3) triples of ITS call (harness/c05.py's
+    direct_loop) - triples remembered from an earlier call are neither complete nor, when T shrinks, in range"""
+    import random as _random
+    import c05
+    from batchie.scoring.gaussian_dbal import GaussianDBALScorer
+
+    g = _random.Random(desc["seed"])
+    sc = GaussianDBALScorer(max_chunk=desc["max_chunk"], max_triples=desc["budget"])
+    pred = None
+    feats = ["scorer_history", "calls:%d" % len(desc["Ts"])] + (["shrinking-T"] if any(b < a for a, b in zip(desc["Ts"], desc["Ts"][1:])) else [])
+    for step, T in enumerate(desc["Ts"]):
+        plates = c05._plates(g, T, g.randint(1, 3), 1, False)
+        D = c05._matrix(g, T, True)
+        r = impl_call(c05._scorer, plates, list(range(len(plates))), D, T, desc["max_chunk"], desc["budget"], g.randrange(2 ** 31), scorer=sc)
+        if isinstance(r, ImplError):
+            pred = "call %d (T=%d) on the reused scorer raised %r" % (step, T, r)
+            break
+        items, rr, keyof = r
+        triples = [tuple(sorted(t, reverse=True)) for t in itertools.combinations(range(T), 3)]
+        for k, s_ in items:
+            p = plates[keyof.index(k)]
+            ref = c05.direct_loop(p["mu"], p["var"], D, 1.0, triples)
+            if isinstance(s_, str) or not c05._same(s_, ref):
+                pred = "call %d on one scorer object (T=%d after %r): plate scores %r, the estimator over all %d triples gives %r" % (
+                    step, T, desc["Ts"][:step], s_, len(triples), ref)
+                break
+        if pred:
+            break
+    return dict(wire=None, impl=None, pred=pred, features=feats)
 
 
 class _RecRng:
@@ -395,6 +435,8 @@ def run(desc):
         else:
             feats += ["not-descending-below", "trivial"]
         return dict(wire=[3, n, c], impl=[r, 1 if ok else 0], pred=pred, features=feats)
+    if kind == "scorer_history":
+        return _run_scorer_history(desc)
     if kind == "use":
         return _run_use(desc)
     raise ValueError(kind)
